@@ -1,10 +1,11 @@
 import Ecal.Lemmas.EvalScope
 /-!
-The frame construction of `function.Run` (`Ecal.Obj.callFrame`: new root scope, `this` / `super`, the
-parameters, then the link to the declaration scope) writes into its own fresh scope only.
+The frame construction of `function.Run` — `Ecal.Ev.buildFrame` / `bindParamNodes` / `bindParamNode`, which
+`runFunction` calls: new root scope, `this` / `super`, the parameters, then the link to the declaration scope.
+It writes into its own fresh scope only, and that scope holds nothing but `this`, `super` and the parameters.
 -/
-namespace Ecal.Obj
-open Ecal.Ev
+namespace Ecal.Ev
+open Ecal.Parse (Node)
 
 /-- a write of a plain name into a scope WITHOUT parent goes into that scope, whatever other scopes hold -/
 theorem setValue_parentless (n : Nat) (name vb : List Nat) (x : Val) (s : St) (hn : splitDots name = [vb])
@@ -15,133 +16,235 @@ theorem setValue_parentless (n : Nat) (name vb : List Nat) (x : Val) (s : St) (h
   · simp only [hd, if_true]
   · simp only [hd, Bool.false_eq_true, if_false, hp]
 
-/-- invariant while a frame `n` is being filled: it is in bounds and parentless, scope `t` is as in `st` -/
-def FrameInv (st : St) (n t : Nat) (s : St) : Prop :=
-  n < s.scopes.size ∧ s.scope t = st.scope t ∧ (s.scope n).parent = none
-
-theorem frameInv_withVar (st : St) (n t : Nat) (s : St) (v : String) (x : Val) (htn : t ≠ n)
-    (h : FrameInv st n t s) : FrameInv st n t (s.withVar n v x) := by
-  obtain ⟨h1, h2, h3⟩ := h
-  refine ⟨by rw [(withVar_heap s n v x).2.2]; exact h1, ?_, ?_⟩
-  · rw [withVar_scope_other s n t v x htn]; exact h2
-  · rw [withVar_scope_same s n v x h1]; exact h3
-
 def PlainName (name : List Nat) : Prop := splitDots name = [name]
 
-theorem setAll_inv (st : St) (n t : Nat) (htn : t ≠ n) : ∀ (l : List (List Nat × Val)) (s : St),
-    (∀ p ∈ l, PlainName p.1) → FrameInv st n t s →
-    ∃ s', runM (setAll n l) s = (.ok (), s') ∧ FrameInv st n t s' := by
-  intro l
-  induction l with
-  | nil => intro s _ h; exact ⟨s, rfl, h⟩
-  | cons p rest ih =>
-    intro s hpl h
-    obtain ⟨nm, v⟩ := p
-    have hp : splitDots nm = [nm] := hpl (nm, v) (by simp)
-    have := ih (s.withVar n (bytesToString nm) v) (fun q hq => hpl q (by simp [hq]))
-      (frameInv_withVar st n t s _ v htn h)
-    obtain ⟨s', hs', hi'⟩ := this
-    refine ⟨s', ?_, hi'⟩
-    simp only [setAll]
-    rw [runM_bind, setValue_parentless n nm nm v s hp h.2.2]
-    exact hs'
+/-- invariant while the frame `n` is being filled: it is in bounds and parentless, it defines only names
+    allowed by `A`, and scope `t` is as in `st` -/
+def FrameInv (st : St) (n t : Nat) (A : String → Prop) (s : St) : Prop :=
+  n < s.scopes.size ∧ s.scope t = st.scope t ∧ (s.scope n).parent = none ∧ ∀ w, s.defines n w = true → A w
+
+theorem updVars_defines (vars : List (String × Val)) (v w : String) (x : Val)
+    (h : ((updVars vars v x).find? (·.1 == w)).isSome = true) : w = v ∨ (vars.find? (·.1 == w)).isSome = true := by
+  by_cases hvw : (v == w) = true
+  · left; exact (by simpa using hvw : v = w).symm
+  · right
+    have hvw' : (v == w) = false := by simpa using hvw
+    have := updVars_find_other vars v w x hvw'
+    have h2 : (((updVars vars v x).find? (·.1 == w)).map (·.2)).isSome = true := by simpa using h
+    rw [this] at h2
+    simpa using h2
+
+theorem frameInv_withVar (st : St) (n t : Nat) (A : String → Prop) (s : St) (v : String) (x : Val) (htn : t ≠ n)
+    (hA : A v) (h : FrameInv st n t A s) : FrameInv st n t A (s.withVar n v x) := by
+  obtain ⟨h1, h2, h3, h4⟩ := h
+  refine ⟨by rw [(withVar_heap s n v x).2.2]; exact h1, ?_, ?_, ?_⟩
+  · rw [withVar_scope_other s n t v x htn]; exact h2
+  · rw [withVar_scope_same s n v x h1]; exact h3
+  · intro w hw
+    simp only [St.defines, withVar_scope_same s n v x h1] at hw
+    rcases updVars_defines _ v w x hw with e | e
+    · rw [e]; exact hA
+    · exact h4 w e
 
 /-- what evaluating a default expression may do: anything except shrinking the scope table or touching
     scope `t` / the unlinked frame `n` (nothing can reach the frame: it is a root nobody holds yet) -/
-def DefaultKeeps (ev : Ecal.Parse.Node → M Val) (n t : Nat) : Prop :=
+def DefaultKeeps (ev : Node → M Val) (n t : Nat) : Prop :=
   ∀ d s r s1, runM (ev d) s = (r, s1) → s.scopes.size ≤ s1.scopes.size ∧ s1.scope t = s.scope t ∧ s1.scope n = s.scope n
 
-theorem paramValue_inv (st : St) (ev : Ecal.Parse.Node → M Val) (n t : Nat) (hev : DefaultKeeps ev n t)
-    (p : Param) (i : Nat) (args : List Val) (s s1 : St) (r : Except Sig Val)
-    (h : FrameInv st n t s) (hr : runM (paramValue ev p i args) s = (r, s1)) : FrameInv st n t s1 := by
-  unfold paramValue at hr
-  cases ha : args[i]? with
-  | some a => simp only [ha, runM_pure] at hr; injection hr with _ h2; rw [← h2]; exact h
-  | none =>
-    simp only [ha] at hr
-    cases hd : p.dflt with
-    | none => simp only [hd, runM_pure] at hr; injection hr with _ h2; rw [← h2]; exact h
-    | some d =>
-      simp only [hd] at hr
-      obtain ⟨k1, k2, k3⟩ := hev d s r s1 hr
-      exact ⟨Nat.lt_of_lt_of_le h.1 k1, by rw [k2]; exact h.2.1, by rw [k3]; exact h.2.2⟩
+theorem frameInv_default (st : St) (ev : Node → M Val) (n t : Nat) (A : String → Prop) (hev : DefaultKeeps ev n t)
+    (d : Node) (s s1 : St) (r : Except Sig Val) (h : FrameInv st n t A s) (hr : runM (ev d) s = (r, s1)) :
+    FrameInv st n t A s1 := by
+  obtain ⟨k1, k2, k3⟩ := hev d s r s1 hr
+  exact ⟨Nat.lt_of_lt_of_le h.1 k1, by rw [k2]; exact h.2.1, by rw [k3]; exact h.2.2.1,
+    by intro w hw; apply h.2.2.2 w; simpa [St.defines, k3] using hw⟩
 
-theorem bindParams_inv (st : St) (ev : Ecal.Parse.Node → M Val) (n t : Nat) (htn : t ≠ n) (hev : DefaultKeeps ev n t)
-    (args : List Val) : ∀ (ps : List Param) (i : Nat) (s s' : St) (r : Except Sig Unit),
-    (∀ p ∈ ps, PlainName p.name) → FrameInv st n t s → runM (bindParams ev n ps i args) s = (r, s') →
-    FrameInv st n t s' := by
+/-- the name a parameter node binds -/
+def nodeParamName (p : Node) : Option (List Nat) :=
+  if p.name == "identifier" then p.tok.map (·.val)
+  else if p.name == "preset" then
+    match p.children[0]? with
+    | some (some c) => c.tok.map (·.val)
+    | _ => none
+  else none
+
+/-- the parameter names are plain identifiers allowed by `A` -/
+def NamesOk (A : String → Prop) (ps : List (Option Node)) : Prop :=
+  ∀ p nm, some p ∈ ps → nodeParamName p = some nm → PlainName nm ∧ A (bytesToString nm)
+
+theorem runM_tokOf (p : Node) (s : St) :
+    runM (tokOf p) s = match p.tok with | some t => (.ok t, s) | none => (.error Sig.panic, s) := by
+  unfold tokOf; cases p.tok <;> rfl
+
+theorem runM_child (p : Node) (i : Nat) (s : St) :
+    runM (child p i) s = match p.children[i]? with | some (some c) => (.ok c, s) | _ => (.error Sig.panic, s) := by
+  unfold child
+  cases h : p.children[i]? with
+  | none => rfl
+  | some o => cases o <;> rfl
+
+theorem bindParamNode_inv (st : St) (ev : Node → M Val) (n t : Nat) (A : String → Prop) (htn : t ≠ n)
+    (hev : DefaultKeeps ev n t) (p : Node) (i : Nat) (args : List Val) (s s' : St) (r : Except Sig Unit)
+    (hnm : ∀ nm, nodeParamName p = some nm → PlainName nm ∧ A (bytesToString nm))
+    (h : FrameInv st n t A s) (hr : runM (bindParamNode ev n p i args) s = (r, s')) : FrameInv st n t A s' := by
+  unfold bindParamNode at hr
+  by_cases hid : (p.name == "identifier") = true
+  · simp only [hid, if_true] at hr
+    rw [runM_bind, runM_tokOf] at hr
+    cases htk : p.tok with
+    | none => simp only [htk] at hr; injection hr with _ h2; rw [← h2]; exact h
+    | some tk =>
+      simp only [htk] at hr
+      have hn := hnm tk.val (by simp [nodeParamName, hid, htk])
+      rw [setValue_parentless n tk.val tk.val _ s hn.1 h.2.2.1] at hr
+      injection hr with _ h2; rw [← h2]
+      exact frameInv_withVar st n t A s _ _ htn hn.2 h
+  · simp only [hid, Bool.false_eq_true, if_false] at hr
+    by_cases hpre : (p.name == "preset") = true
+    · simp only [hpre, if_true] at hr
+      rw [runM_bind, runM_child] at hr
+      cases hc : p.children[0]? with
+      | none => simp only [hc] at hr; injection hr with _ h2; rw [← h2]; exact h
+      | some o =>
+        cases o with
+        | none => simp only [hc] at hr; injection hr with _ h2; rw [← h2]; exact h
+        | some c =>
+          simp only [hc] at hr
+          rw [runM_bind, runM_tokOf] at hr
+          cases htk : c.tok with
+          | none => simp only [htk] at hr; injection hr with _ h2; rw [← h2]; exact h
+          | some tk =>
+            simp only [htk] at hr
+            have hn := hnm tk.val (by simp [nodeParamName, hid, hpre, hc, htk])
+            rw [runM_bind] at hr
+            by_cases hi : i < args.length
+            · simp only [hi, if_true, runM_pure] at hr
+              rw [setValue_parentless n tk.val tk.val _ s hn.1 h.2.2.1] at hr
+              injection hr with _ h2; rw [← h2]
+              exact frameInv_withVar st n t A s _ _ htn hn.2 h
+            · simp only [hi, if_false] at hr
+              rw [runM_bind, runM_child] at hr
+              cases hc1 : p.children[1]? with
+              | none => simp only [hc1] at hr; injection hr with _ h2; rw [← h2]; exact h
+              | some o1 =>
+                cases o1 with
+                | none => simp only [hc1] at hr; injection hr with _ h2; rw [← h2]; exact h
+                | some d =>
+                  simp only [hc1] at hr
+                  cases hv : runM (ev d) s with
+                  | mk rv s1 =>
+                    have hi1 := frameInv_default st ev n t A hev d s s1 rv h hv
+                    rw [hv] at hr
+                    cases rv with
+                    | error e => simp only at hr; injection hr with _ h2; rw [← h2]; exact hi1
+                    | ok v =>
+                      simp only at hr
+                      rw [setValue_parentless n tk.val tk.val _ s1 hn.1 hi1.2.2.1] at hr
+                      injection hr with _ h2; rw [← h2]
+                      exact frameInv_withVar st n t A s1 _ _ htn hn.2 hi1
+    · simp only [hpre, Bool.false_eq_true, if_false, runM_pure] at hr
+      injection hr with _ h2; rw [← h2]; exact h
+
+theorem bindParamNodes_inv (st : St) (ev : Node → M Val) (n t : Nat) (A : String → Prop) (htn : t ≠ n)
+    (hev : DefaultKeeps ev n t) (args : List Val) : ∀ (ps : List (Option Node)) (i : Nat) (s s' : St) (r : Except Sig Unit),
+    NamesOk A ps → FrameInv st n t A s → runM (bindParamNodes ev n ps i args) s = (r, s') → FrameInv st n t A s' := by
   intro ps
   induction ps with
-  | nil => intro i s s' r _ h hr; simp only [bindParams, runM_pure] at hr; injection hr with _ h2; rw [← h2]; exact h
-  | cons p rest ih =>
-    intro i s s' r hpl h hr
-    simp only [bindParams] at hr
-    rw [runM_bind] at hr
-    cases hv : runM (paramValue ev p i args) s with
-    | mk rv s1 =>
-      have hi1 := paramValue_inv st ev n t hev p i args s s1 rv h hv
-      rw [hv] at hr
-      cases rv with
-      | error e => simp only at hr; injection hr with _ h2; rw [← h2]; exact hi1
-      | ok v =>
-        simp only at hr
-        rw [runM_bind, setValue_parentless n p.name p.name v s1 (hpl p (by simp)) hi1.2.2] at hr
-        simp only at hr
-        exact ih (i + 1) _ s' r (fun q hq => hpl q (by simp [hq])) (frameInv_withVar st n t s1 _ v htn hi1) hr
+  | nil => intro i s s' r _ h hr; simp only [bindParamNodes, runM_pure] at hr; injection hr with _ h2; rw [← h2]; exact h
+  | cons o rest ih =>
+    intro i s s' r hok h hr
+    cases o with
+    | none => simp only [bindParamNodes, runM_throw] at hr; injection hr with _ h2; rw [← h2]; exact h
+    | some p =>
+      simp only [bindParamNodes] at hr
+      rw [runM_bind] at hr
+      cases hb : runM (bindParamNode ev n p i args) s with
+      | mk rb s1 =>
+        have hi1 := bindParamNode_inv st ev n t A htn hev p i args s s1 rb (fun nm hnm => hok p nm (by simp) hnm) h hb
+        rw [hb] at hr
+        cases rb with
+        | error e => simp only at hr; injection hr with _ h2; rw [← h2]; exact hi1
+        | ok u =>
+          simp only at hr
+          exact ih (i + 1) s1 s' r (fun q nm hq hnm => hok q nm (by simp [hq]) hnm) hi1 hr
 
 theorem plain_this : PlainName thisName := by unfold PlainName; decide
 theorem plain_super : PlainName superName := by unfold PlainName; decide
 
-theorem contextVars_plain (this super : Option Val) : ∀ p ∈ contextVars this super, PlainName p.1 := by
-  intro p hp
-  unfold contextVars at hp
-  cases this <;> cases super <;> simp at hp
-  · subst hp; exact plain_super
-  · subst hp; exact plain_this
-  · rcases hp with h | h <;> subst h
-    · exact plain_this
-    · exact plain_super
+theorem bindContext_inv (st : St) (n t : Nat) (A : String → Prop) (htn : t ≠ n) (name : List Nat) (o : Option Val) (s : St)
+    (hp : PlainName name) (hA : A (bytesToString name)) (h : FrameInv st n t A s) :
+    ∃ s1, runM (bindContext n name o) s = (.ok (), s1) ∧ FrameInv st n t A s1 := by
+  cases o with
+  | none => exact ⟨s, rfl, h⟩
+  | some v =>
+    refine ⟨_, setValue_parentless n name name v s hp h.2.2.1, ?_⟩
+    exact frameInv_withVar st n t A s _ v htn hA h
 
-/-- A call builds its frame without writing any existing scope: whatever the outcome (also when a
-    default raises an error), every scope `t` that existed before is as it was — provided evaluating the
-    default expressions leaves `t` (and the still unreachable frame) alone.  In particular `this`, `super`
-    and the parameters never overwrite variables of the same names in enclosing frames. -/
-theorem callFrame_keeps_existing (ev : Ecal.Parse.Node → M Val) (name : String) (ds : Nat) (this super : Option Val)
-    (params : List Param) (args : List Val) (st st' : St) (r : Except Sig Nat) (t : Nat)
-    (ht : t < st.scopes.size) (hpl : ∀ p ∈ params, PlainName p.name)
-    (hev : DefaultKeeps ev st.scopes.size t)
-    (h : runM (callFrame ev name ds this super params args) st = (r, st')) :
-    st'.scope t = st.scope t := by
+/-- the state a finished `buildFrame` leaves -/
+structure FrameResult (st : St) (fr : FuncRec) (A : String → Prop) (t fvs : Nat) (st' : St) : Prop where
+  fresh : fvs = st.scopes.size
+  inBounds : fvs < st'.scopes.size
+  linked : (st'.scope fvs).parent = some fr.declScope
+  onlyAllowed : ∀ w, st'.defines fvs w = true → A w
+  kept : st'.scope t = st.scope t
+
+/-- `buildFrame`, every outcome: scope `t` (any scope that existed before) is unchanged; on success the frame is
+    the NEW scope index, linked to the declaration scope, and defines only allowed names -/
+theorem buildFrame_spec (ev : Node → M Val) (fr : FuncRec) (params : List (Option Node)) (args : List Val)
+    (st st' : St) (r : Except Sig Nat) (t : Nat) (A : String → Prop)
+    (ht : t < st.scopes.size) (hthis : A (bytesToString thisName)) (hsuper : A (bytesToString superName))
+    (hok : NamesOk A params) (hev : DefaultKeeps ev st.scopes.size t)
+    (h : runM (buildFrame ev fr params args) st = (r, st')) :
+    st'.scope t = st.scope t ∧ ∀ fvs, r = .ok fvs → FrameResult st fr A t fvs st' := by
   have htn : t ≠ st.scopes.size := Nat.ne_of_lt ht
-  unfold callFrame at h
+  unfold buildFrame at h
   rw [runM_bind, newScope_run] at h
   simp only at h
-  have h0 : FrameInv st st.scopes.size t
-      { st with scopes := st.scopes.push { name := s!"func: {name}", parent := none, children := [], vars := [] } } := by
-    refine ⟨by simp, ?_, ?_⟩
+  have h0 : FrameInv st st.scopes.size t A
+      { st with scopes := st.scopes.push { name := s!"func: {fr.name}", parent := none, children := [], vars := [] } } := by
+    refine ⟨by simp, ?_, ?_, ?_⟩
     · simp [St.scope, Array.getElem?_push, htn, ht]
     · simp [St.scope]
-  obtain ⟨s1, hs1, hi1⟩ := setAll_inv st st.scopes.size t htn (contextVars this super) _ (contextVars_plain this super) h0
-  rw [runM_bind, hs1] at h
+    · intro w hw; simp [St.defines, St.scope] at hw
+  rw [runM_bind] at h
+  obtain ⟨s1, hs1, hi1⟩ := bindContext_inv st st.scopes.size t A htn thisName fr.this _ plain_this hthis h0
+  rw [hs1] at h
   simp only at h
   rw [runM_bind] at h
-  cases hb : runM (bindParams ev st.scopes.size params 0 args) s1 with
-  | mk rb s2 =>
-    have hi2 := bindParams_inv st ev st.scopes.size t htn hev args params 0 s1 s2 rb hpl hi1 hb
+  obtain ⟨s2, hs2, hi2⟩ := bindContext_inv st st.scopes.size t A htn superName fr.super _ plain_super hsuper hi1
+  rw [hs2] at h
+  simp only at h
+  rw [runM_bind] at h
+  cases hb : runM (bindParamNodes ev st.scopes.size params 0 args) s2 with
+  | mk rb s3 =>
+    have hi3 := bindParamNodes_inv st ev st.scopes.size t A htn hev args params 0 s2 s3 rb hok hi2 hb
     rw [hb] at h
     cases rb with
-    | error e => simp only at h; injection h with _ h2; rw [← h2]; exact hi2.2.1
+    | error e =>
+      simp only at h; injection h with h1' h2'; rw [← h2']
+      refine ⟨hi3.2.1, ?_⟩
+      intro fvs hr; rw [← h1'] at hr; cases hr
     | ok u =>
       simp only at h
       rw [runM_bind, getScope_run] at h
       simp only at h
       rw [runM_bind, setScope_run] at h
       simp only [runM_pure] at h
-      injection h with _ h2
-      rw [← h2]
-      simp only [St.scope, Array.getD_eq_getD_getElem?]
-      rw [Array.getElem?_setIfInBounds_ne (Ne.symm htn)]
-      have := hi2.2.1
-      simpa [St.scope] using this
+      injection h with h1' h2'
+      have hkept : st'.scope t = st.scope t := by
+        rw [← h2']
+        simp only [St.scope, Array.getD_eq_getD_getElem?]
+        rw [Array.getElem?_setIfInBounds_ne (Ne.symm htn)]
+        simpa [St.scope] using hi3.2.1
+      have hsame : st'.scope st.scopes.size = { s3.scope st.scopes.size with parent := some fr.declScope } := by
+        rw [← h2']; simp [St.scope, hi3.1]
+      refine ⟨hkept, ?_⟩
+      intro fvs hr
+      rw [← h1'] at hr
+      injection hr with hr
+      subst hr
+      refine ⟨rfl, by rw [← h2']; simpa using hi3.1, by rw [hsame], ?_, hkept⟩
+      intro w hw
+      apply hi3.2.2.2 w
+      simpa [St.defines, hsame] using hw
 
-end Ecal.Obj
+end Ecal.Ev
